@@ -628,9 +628,9 @@ def mutated_cases(draw, tier):
 
 
 PARTS = [
-    Part("mutated-documents", run_mutated, strategy=lambda tier: mutated_cases(tier), n={"quick": 500, "thorough": 40000}),
-    Part("writer", run_writer, strategy=lambda tier: writer_cases(tier), n={"quick": 500, "thorough": 40000}),
-    Part("reader", run_reader, strategy=lambda tier: reader_cases(tier), n={"quick": 500, "thorough": 40000}),
+    Part("mutated-documents", run_mutated, strategy=lambda tier: mutated_cases(tier), n={"quick": 500, "thorough": 120000}),
+    Part("writer", run_writer, strategy=lambda tier: writer_cases(tier), n={"quick": 500, "thorough": 120000}),
+    Part("reader", run_reader, strategy=lambda tier: reader_cases(tier), n={"quick": 500, "thorough": 120000}),
     Part("guide-docs", run_guide, enum=guide_cases),
     Part("malformed", run_malformed, strategy=lambda tier: malformed_cases(tier), n={"quick": 300, "thorough": 10000}),
 ]
